@@ -214,6 +214,11 @@ fn gen_offer(rng: &mut Rng) -> DescSpec {
         // sections with differing a=setup
         for s in &mut d.sections { s.setup = Some(*rng.pick(&["actpass", "active", "passive"])); }
     }
+    // a direction at session level, with some sections carrying none of their own (RFC 8866 §6.7)
+    if rng.chance(1, 12) {
+        d.session_dir = Some(*rng.pick(&["sendonly", "recvonly", "inactive", "sendrecv"]));
+        for s in &mut d.sections { if rng.chance(2, 3) { s.dir = ""; } }
+    }
     // extmap forms: value-less attribute, direction-qualified id, a URI that contains a probed URI
     for s in &mut d.sections {
         if matches!(s.kind, MediaKind::Audio | MediaKind::Video) && rng.chance(1, 12) {
@@ -283,18 +288,24 @@ fn group_mids(d: &SessionDescription) -> Option<Vec<String>> {
         .and_then(|a| a.value.as_ref()).map(|v| v.split_whitespace().skip(1).map(|s| s.to_string()).collect())
 }
 
-pub struct Verdict { pub n: bool, pub al: bool, pub pt: bool, pub rx: bool, pub ex: bool, pub mx: bool, pub di: bool, pub su: bool, pub bu: bool, pub cb: bool, pub fails: Vec<(String, String)> }
+pub struct Verdict { pub n: bool, pub al: bool, pub pt: bool, pub rx: bool, pub ex: bool, pub mx: bool, pub di: bool, pub su: bool, pub bu: bool, pub cb: bool,
+    /// oracles outside the Lean `validAnswer` bits (port / c= / session-level direction): part of `all()`, not of `text()`
+    pub extra: bool, pub notes: Vec<String>, pub fails: Vec<(String, String)> }
 impl Verdict {
-    fn all(&self) -> bool { self.n && self.al && self.pt && self.rx && self.ex && self.mx && self.di && self.su && self.bu }
+    fn clauses(&self) -> bool { self.n && self.al && self.pt && self.rx && self.ex && self.mx && self.di && self.su && self.bu }
+    fn all(&self) -> bool { self.clauses() && self.extra }
     fn text(&self) -> String {
-        format!("{} n{} al{} pt{} rx{} ex{} mx{} di{} su{} bu{} cb{}", self.all() as u8, self.n as u8, self.al as u8, self.pt as u8, self.rx as u8,
+        format!("{} n{} al{} pt{} rx{} ex{} mx{} di{} su{} bu{} cb{}", self.clauses() as u8, self.n as u8, self.al as u8, self.pt as u8, self.rx as u8,
             self.ex as u8, self.mx as u8, self.di as u8, self.su as u8, self.bu as u8, self.cb as u8)
     }
 }
 
 /// what the oracle knows about the answerer besides the two descriptions: used ONLY to name the root cause of a
 /// failure in its signature (so that a failure with another cause is a new signature), never to excuse one.
-pub struct Ctx<'a> { pub renegotiation: bool, pub cfg: &'a LocalCfg, pub first_offer: Option<&'a SessionDescription>, pub trx_kinds: Vec<MediaKind>, pub trx_mids: Vec<(MediaKind, Option<String>)> }
+pub struct Ctx<'a> { pub renegotiation: bool, pub cfg: &'a LocalCfg, pub first_offer: Option<&'a SessionDescription>, pub trx_kinds: Vec<MediaKind>,
+    /// the generator's view of the offer: which sections carry NO direction attribute of their own (the parser folds an absent
+    /// direction into `sendrecv`, so the parsed description cannot tell)
+    pub spec: &'a DescSpec }
 
 fn local_audio(c: &LocalCfg) -> Vec<AudioCapability> { if c.caps_set && !c.audio.is_empty() { c.audio.clone() } else { vec![AudioCapability::default()] } }
 fn local_video(c: &LocalCfg) -> Vec<VideoCapability> { if c.caps_set && !c.video.is_empty() { c.video.clone() } else { vec![VideoCapability::default()] } }
@@ -302,6 +313,31 @@ fn local_video(c: &LocalCfg) -> Vec<VideoCapability> { if c.caps_set && !c.video
 fn bindings(m: &MediaSection) -> Vec<(String, String, String)> {
     vals(m, "rtpmap").iter().filter_map(|v| { let (pt, rest) = v.split_once(' ')?; let mut it = rest.trim().split('/');
         Some((pt.to_string(), it.next()?.to_ascii_uppercase(), it.next().unwrap_or("").to_string())) }).collect()
+}
+/// (NAME, clock, channels) of every audio format an offered section lists — written from RFC 8866 / RFC 3551 (last rtpmap of a
+/// payload type wins; static payload types without rtpmap from the RFC 3551 table plus the stack's conventions for 111 / 101),
+/// NOT by calling the implementation's `to_audio_capabilities`
+fn offered_audio(m: &MediaSection) -> Vec<(String, u32, u8)> {
+    let mut out = vec![];
+    for f in &m.formats {
+        let Ok(pt) = f.parse::<u8>() else { continue };
+        let mut found: Option<(String, u32, u8)> = None;
+        for v in vals(m, "rtpmap") {
+            let Some((p, rest)) = v.split_once(' ') else { continue };
+            if p.parse::<u8>().ok() != Some(pt) { continue; }
+            let parts: Vec<&str> = rest.split('/').collect();
+            let clock = parts.get(1).and_then(|c| c.parse().ok()).unwrap_or(8000);
+            let ch = parts.get(2).and_then(|c| c.parse().ok()).unwrap_or(1);
+            found = Some((parts[0].to_ascii_uppercase(), clock, ch));
+        }
+        out.push(found.filter(|x| !x.0.is_empty()).unwrap_or_else(|| match pt { 0 => ("PCMU".into(), 8000, 1), 8 => ("PCMA".into(), 8000, 1), 9 => ("G722".into(), 8000, 1),
+            18 => ("G729".into(), 8000, 1), 111 => ("OPUS".into(), 48000, 2), 101 => ("TELEPHONE-EVENT".into(), 8000, 1), _ => ("UNKNOWN".into(), 8000, 1) }));
+    }
+    out
+}
+/// (id token, URI) of every `a=extmap`
+fn ext_pairs(m: &MediaSection) -> Vec<(String, String)> {
+    vals(m, "extmap").iter().filter_map(|v| { let mut it = v.split_whitespace(); Some((it.next()?.to_string(), it.next()?.to_string())) }).collect()
 }
 /// the offerer's `a=setup` for a section: media level, else session level
 fn offered_setup<'a>(offer: &'a SessionDescription, o: &'a MediaSection) -> (Option<&'a str>, bool) {
@@ -311,7 +347,7 @@ fn offered_setup<'a>(offer: &'a SessionDescription, o: &'a MediaSection) -> (Opt
 }
 
 pub fn valid_answer(offer: &SessionDescription, ans: &SessionDescription, cx: &Ctx) -> Verdict {
-    let mut v = Verdict { n: true, al: true, pt: true, rx: true, ex: true, mx: true, di: true, su: true, bu: true, cb: true, fails: vec![] };
+    let mut v = Verdict { n: true, al: true, pt: true, rx: true, ex: true, mx: true, di: true, su: true, bu: true, cb: true, extra: true, notes: vec![], fails: vec![] };
     let neg = if cx.renegotiation { "renegotiation" } else { "first-negotiation" };
     let legacy = cx.cfg.legacy;
     let nm = offer.media_sections.iter().filter(|m| !m.mid.is_empty()).count();
@@ -325,43 +361,31 @@ pub fn valid_answer(offer: &SessionDescription, ans: &SessionDescription, cx: &C
     let setups_differ = setups.iter().any(|x| *x != setups[0]);
     for (i, (o, a)) in offer.media_sections.iter().zip(ans.media_sections.iter()).enumerate() {
         let k = kind_ch(o.kind);
-        // the section `find(|s| s.mid == mid)` returns for this section's mid: itself, unless an earlier section has the same
-        // (typically empty) mid
-        let first_same_mid = offer.media_sections.iter().position(|m| m.mid == o.mid).unwrap_or(i);
         if o.kind != a.kind { v.al = false; v.fails.push((format!("ans:kind:{neg}:{ms}"), format!("section {i}: offer {:?}, answer {:?}", o.kind, a.kind))); }
         if o.mid != a.mid {
             v.al = false;
-            let class = if legacy { "legacy-sip" } else if a.mid.is_empty() && !offered_bundle && offer.media_sections.len() > 1 { "cleared-no-bundle-multi-section" }
-                else if o.mid.is_empty() { "added-to-midless-offer" } else { "other" };
+            // LegacySip: EVERY mid is dropped; a mid that is wrong rather than dropped is something else
+            let class = if legacy && a.mid.is_empty() { "legacy-sip" } else if a.mid.is_empty() && !offered_bundle && offer.media_sections.len() > 1 { "cleared-no-bundle-multi-section" }
+                else if o.mid.is_empty() && cx.cfg.offered_first { "own-mid-on-midless-section" } else { "other" };
             v.fails.push((format!("ans:mids:{class}"), format!("section {i}: offer mid {:?}, answer mid {:?}", o.mid, a.mid)));
         }
-        // a MID-less section is matched by kind; if that transceiver carries a mid of its own (an earlier create_offer) every
-        // lookup `find(|s| s.mid == mid)` is made with THAT mid and lands on whatever offered section happens to have it
-        let via_own_mid: Vec<usize> = if o.mid.is_empty() { (0..offer.media_sections.len()).filter(|j| { let m = &offer.media_sections[*j].mid;
-            !m.is_empty() && cx.trx_mids.iter().any(|(k2, tm)| *k2 == o.kind && tm.as_deref() == Some(m.as_str())) }).collect() } else { vec![] };
+        // ---- the answer accepts the section: non-zero port, a connection address (RFC 3264 §6: port 0 = rejected)
+        if a.port == 0 { v.extra = false; v.fails.push((format!("ans:port-zero:{k}"), format!("section {i}: the answer rejects the section (m= port 0) although the stack keeps a transceiver for it"))); }
+        if a.connection.is_none() && ans.session.connection.is_none() { v.extra = false; v.fails.push((format!("ans:no-connection-address:{k}"), format!("section {i}: neither a media-level nor a session-level c= line"))); }
         // ---- payload types
         let unoffered = a.formats.iter().find(|f| !o.formats.contains(f));
         let rebound = { let ob = bindings(o); bindings(a).into_iter().find(|(pt, n, c)| o.formats.contains(pt) && ob.iter().any(|(p2, n2, c2)| p2 == pt && (n2 != n || c2 != c))) };
-        if unoffered.is_some() || rebound.is_some() {
+        if let Some(f) = unoffered {
             let cause = match o.kind {
                 MediaKind::Audio => {
                     let la = local_audio(cx.cfg);
                     let local_pts: Vec<String> = la.iter().map(|c| c.payload_type.to_string()).collect();
-                    let common = |sec: &MediaSection| sec.to_audio_capabilities().iter().any(|r| la.iter().any(|l| l.codec_name.eq_ignore_ascii_case(&r.codec_name) && l.clock_rate == r.clock_rate && l.channels == r.channels));
-                    // what the answer looks like when section `sec` is the one whose codecs were intersected with the local list
-                    let consistent = |sec: &MediaSection| if common(sec) { a.formats.iter().all(|f| sec.formats.contains(f)) } else { a.formats == local_pts };
-                    let first_audio = offer.media_sections.iter().position(|m| m.kind == MediaKind::Audio).unwrap_or(i);
-                    // a transceiver of the kind carries a mid that no offered section has (assigned by an earlier create_offer):
-                    // matched to a mid-less section by kind, it looks the remote section up by ITS mid and finds none
-                    let own_mid = cx.trx_mids.iter().any(|(k2, m)| *k2 == o.kind && m.as_deref().is_some_and(|m| !m.is_empty()));
-                    if o.mid.is_empty() && own_mid && a.formats == local_pts { "own-mid-lookup-misses-midless-section" }
-                    else if via_own_mid.iter().any(|j| offer.media_sections[*j].kind == MediaKind::Audio && consistent(&offer.media_sections[*j])) { "own-mid-lookup-hits-another-section" }
-                    else if o.mid.is_empty() && first_audio != i && consistent(&offer.media_sections[first_audio]) { "midless-first-audio-section-consulted" }
-                    else if !o.mid.is_empty() && first_same_mid != i { "duplicate-mid" }
-                    else if !common(o) && a.formats == local_pts { "no-common-codec-local-list" }
-                    else if common(o) { "common-codec-exists" } else { "other" }
+                    let common = offered_audio(o).iter().any(|r| la.iter().any(|l| l.codec_name.eq_ignore_ascii_case(&r.0) && l.clock_rate == r.1 && l.channels == r.2));
+                    if !common && a.formats == local_pts { "no-common-codec-local-list" } else if common { "common-codec-exists" } else { "other" }
                 }
                 MediaKind::Video => {
+                    // known: the local list is answered unchanged. Shape: the answered primaries are exactly the local list AND the
+                    // offer shares no payload type number with it that it binds to the same codec (otherwise something else is wrong too)
                     let rtx_pts: Vec<String> = apt_pairs(a).iter().map(|p| p.0.to_string()).collect();
                     let prim: Vec<&String> = a.formats.iter().filter(|f| !rtx_pts.contains(f)).collect();
                     let lv: Vec<String> = local_video(cx.cfg).iter().filter(|c| !c.codec_name.eq_ignore_ascii_case("rtx")).map(|c| c.payload_type.to_string()).collect();
@@ -370,36 +394,27 @@ pub fn valid_answer(offer: &SessionDescription, ans: &SessionDescription, cx: &C
                 MediaKind::Image => if o.formats == ["t38"] && !a.formats.is_empty() && a.formats.iter().all(|f| f.parse::<u8>().is_ok()) { "t38-answered-as-number" } else { "other" },
                 MediaKind::Application => "other",
             };
-            if let Some(f) = unoffered {
-                v.pt = false;
-                let head = if o.kind == MediaKind::Image { "ans:image-format".to_string() } else { format!("ans:codecs:{neg}:{k}") };
-                v.fails.push((format!("{head}:{cause}"), format!("section {i}: answer format {f} was not offered (offer {:?}, answer {:?})", o.formats, a.formats)));
-            }
-            if let Some((pt, n, c)) = rebound {
-                v.cb = false;
-                v.fails.push((format!("ans:pt-rebound:{neg}:{k}:{cause}"), format!("section {i}: offered payload type {pt} is answered as {n}/{c} (offer rtpmaps {:?})", vals(o, "rtpmap"))));
-            }
+            v.pt = false;
+            let head = if o.kind == MediaKind::Image { "ans:image-format".to_string() } else { format!("ans:codecs:{neg}:{k}") };
+            v.fails.push((format!("{head}:{cause}"), format!("section {i}: answer format {f} was not offered (offer {:?}, answer {:?})", o.formats, a.formats)));
         }
-        // ---- RTX
+        // not a clause of the property (it speaks of payload type NUMBERS): counted and reported as bit `cb`, never a failure
+        if rebound.is_some() { v.cb = false; v.notes.push(format!("pt_rebound_{k}")); }
+        // ---- RTX: only associations this section offered
         let (oa, aa) = (apt_pairs(o), apt_pairs(a));
         if let Some(p) = aa.iter().find(|p| !oa.contains(p)) {
             v.rx = false;
-            let src = if first_same_mid != i { Some(first_same_mid) } else { None };
-            let cause = match src { Some(j) if aa.iter().all(|q| apt_pairs(&offer.media_sections[j]).contains(q)) => "taken-from-first-section-with-same-mid",
-                _ if via_own_mid.iter().any(|j| aa.iter().all(|q| apt_pairs(&offer.media_sections[*j]).contains(q))) => "taken-from-section-with-the-transceivers-own-mid",
-                // the transceiver's own mid names no offered section: merge_remote_rtx_into_answer falls back to the FIRST video section
-                _ if o.mid.is_empty() && cx.trx_mids.iter().any(|(k2, m)| *k2 == o.kind && m.as_deref().is_some_and(|m| !m.is_empty()))
-                    && offer.media_sections.iter().find(|m| m.kind == MediaKind::Video).is_some_and(|fv| aa.iter().all(|q| apt_pairs(fv).contains(q))) => "own-mid-lookup-falls-back-to-first-video-section",
-                _ => "other" };
-            v.fails.push((format!("ans:rtx:{neg}:{cause}"), format!("section {i}: apt {:?} not offered {:?}", p, oa)));
+            v.fails.push((format!("ans:rtx:{neg}:{k}"), format!("section {i}: apt {:?} not offered {:?}", p, oa)));
         }
-        // ---- header extensions
+        // ---- header extensions: only (id, URI) bindings this section offered; no duplicate ids
         let (oe, ae) = (ext_ids(o), ext_ids(a));
         if let Some(id) = ae.iter().find(|id| !oe.contains(id)) {
             v.ex = false;
-            let cause = if first_same_mid != i && ae.iter().all(|x| ext_ids(&offer.media_sections[first_same_mid]).contains(x)) { "taken-from-first-section-with-same-mid" }
-                else if via_own_mid.iter().any(|j| ae.iter().all(|x| ext_ids(&offer.media_sections[*j]).contains(x))) { "taken-from-section-with-the-transceivers-own-mid" } else { "other" };
-            v.fails.push((format!("ans:extmap-id-not-offered:{k}:{cause}"), format!("section {i}: id {id}, offered {:?}", oe)));
+            v.fails.push((format!("ans:extmap-id-not-offered:{k}"), format!("section {i}: id {id}, offered {:?}", oe)));
+        } else if let Some((id, uri)) = ext_pairs(a).into_iter().find(|p| !ext_pairs(o).contains(p)) {
+            v.ex = false;
+            let cause = if ext_pairs(o).iter().any(|(i2, u2)| *i2 == id && u2.contains(uri.as_str())) { "uri-matched-as-substring" } else { "other" };
+            v.fails.push((format!("ans:extmap-binding:{k}:{cause}"), format!("section {i}: answer binds id {id} to {uri}; the offer binds {:?}", ext_pairs(o))));
         }
         let mut s = ae.clone(); s.sort(); s.dedup();
         if s.len() != ae.len() { v.ex = false; v.fails.push((format!("ans:extmap-duplicate-id:{k}:{ms}"), format!("section {i}: {:?}", ae))); }
@@ -421,18 +436,34 @@ pub fn valid_answer(offer: &SessionDescription, ans: &SessionDescription, cx: &C
             let cause = if cx.renegotiation && o.mid.is_empty() && spare { "midless-reoffer-rebinds-spare-transceiver" } else { "other" };
             v.fails.push((format!("ans:direction:{neg}:{cause}"), format!("section {i}: offered {}, answered {}", dir_s(o.direction), dir_s(a.direction))));
         }
+        // session-level direction (RFC 8866 §6.7: applies to every section that has none of its own)
+        if let (Some(sd), true) = (cx.spec.session_dir, cx.spec.sections.get(i).is_some_and(|s2| s2.dir.is_empty())) {
+            let ok = match sd { "sendonly" => matches!(a.direction, Direction::RecvOnly | Direction::Inactive), "recvonly" => matches!(a.direction, Direction::SendOnly | Direction::Inactive),
+                "inactive" => a.direction == Direction::Inactive, _ => true };
+            if !ok { v.extra = false; v.fails.push((format!("ans:direction:session-level-direction-not-read:{sd}"), format!("section {i} has no direction of its own, the session says a={sd}; answered {}", dir_s(a.direction)))); }
+        }
         // ---- DTLS setup
         if let Some(su) = vals(a, "setup").first() {
             let (os, session_level) = offered_setup(offer, o);
             let ok = *su != "actpass" && match os { Some("active") => *su == "passive", Some("passive") => *su == "active", _ => *su == "active" || *su == "passive" };
             if !ok {
                 v.su = false;
-                let first_setup = cx.first_offer.and_then(|f| f.media_sections.iter().find_map(|m| vals(m, "setup").first().copied()));
-                let cause = if session_level { "session-level-setup-not-read" }
-                    else if setups_differ { "sections-differ-first-setup-wins" }
-                    else if cx.renegotiation && first_setup != os { "role-kept-from-first-negotiation" } else { "other" };
+                // what the two known defects produce: ONE role for the connection, derived from the first media-level a=setup of the
+                // first offer (never re-derived, session level not read); role unset -> "active"
+                let first_setup = offer.media_sections.iter().find_map(|m| vals(m, "setup").first().copied());
+                let known_answer = match first_setup { Some("active") | Some("actpass") => "passive", _ => "active" };
+                // (session-level a=setup and the role of a re-offer are read since the round-3 fixes: no excuse for those any more)
+                let _ = session_level;
+                let cause = if *su == known_answer && setups_differ { "sections-differ-first-setup-wins" } else { "other" };
                 v.fails.push((format!("ans:setup:{}-answered-{}:{cause}", os.unwrap_or("none"), su), format!("section {i}")));
             }
+        }
+    }
+    { // the mids of an answer are pairwise different (what the mid counter's skipping of remote mids is for)
+        let mut mids: Vec<&str> = ans.media_sections.iter().map(|s2| s2.mid.as_str()).filter(|m| !m.is_empty()).collect();
+        let n0 = mids.len(); mids.sort(); mids.dedup();
+        if mids.len() != n0 && { let mut om: Vec<&str> = offer.media_sections.iter().map(|s2| s2.mid.as_str()).filter(|m| !m.is_empty()).collect(); let k0 = om.len(); om.sort(); om.dedup(); om.len() == k0 } {
+            v.extra = false; v.fails.push(("ans:duplicate-mid".into(), format!("answer mids {:?}", ans.media_sections.iter().map(|s2| s2.mid.clone()).collect::<Vec<_>>())));
         }
     }
     if let Some(g) = ans.session.attributes.iter().find(|a| a.key == "group").and_then(|a| a.value.as_ref()) {
@@ -440,7 +471,10 @@ pub fn valid_answer(offer: &SessionDescription, ans: &SessionDescription, cx: &C
         match group_mids(offer) {
             Some(om) => if let Some(m) = am.iter().find(|m| !om.iter().any(|x| x == *m)) {
                 v.bu = false;
-                v.fails.push(("ans:bundle:section-outside-offered-group-bundled".into(), format!("answer group `{g}` lists mid {m}; the offer's group is {:?}", om)));
+                // known shape: the answer bundles EVERY section (its group lists all its mids, in order)
+                let all: Vec<&str> = ans.media_sections.iter().map(|s2| s2.mid.as_str()).collect();
+                let cause = if am == all { "every-section-bundled" } else { "other" };
+                v.fails.push((format!("ans:bundle:section-outside-offered-group:{cause}"), format!("answer group `{g}` lists mid {m}; the offer's group is {:?}", om)));
             },
             None => { v.bu = false; v.fails.push(("ans:bundle:group-not-offered".into(), format!("answer group {g}"))); }
         }
@@ -488,7 +522,9 @@ fn round_trip_desc(run: &mut Run, case: &str, origin: &str, d: &SessionDescripti
         Ok(d2) => {
             if d2 != *d && d2 == norm(d) {
                 // the literal clause fails; the ONLY difference is the printer's transport-first attribute partition
-                run.fail(&format!("rt:attribute-order:{origin}"), case, "parse(print(d)) != d: the printer moved ice-ufrag / ice-pwd / fingerprint / setup / candidate ahead of the other attributes of a section");
+                // descriptions the stack produced are in serialiser order since the round-3 fix: for them this is a defect again
+                let sig = if origin.starts_with("produced") { format!("rt:produced-description-not-exact:{origin}") } else { format!("rt:attribute-order:{origin}") };
+                run.fail(&sig, case, "parse(print(d)) != d: the printer moved ice-ufrag / ice-pwd / fingerprint / setup / candidate ahead of the other attributes of a section");
                 run.count("rt_not_exact_attribute_order");
             } else if d2 == *d { run.count("rt_exact"); }
             if d2 != norm(d) {
@@ -536,25 +572,55 @@ fn err_class(e: &rustrtc::RtcError) -> String {
 }
 
 /// answer to the current remote offer: snapshot → real create_answer → `ans`, `valid`, `rt`, oracles
-async fn answer_step(run: &mut Run, case: &str, c: &LocalCfg, pc: &PeerConnection, offer: &SessionDescription, reneg: bool, first_offer: Option<&SessionDescription>) -> Option<SessionDescription> {
+async fn answer_step(run: &mut Run, case: &str, c: &LocalCfg, pc: &PeerConnection, offer: &SessionDescription, spec: &DescSpec, reneg: bool, first_offer: Option<&SessionDescription>) -> Option<SessionDescription> {
     let snap = pc.verif_snapshot();
     let remote = snap.remote_description.as_ref().map(desc_s).unwrap_or("-".into());
-    let input = format!("{case} {} {} {} {} {} {}", cfg_s(c), trxs_s(&snap), snap.next_mid, snap.local_description.is_some() as u8, role_s(snap.dtls_role), remote);
+    let input = format!("{case} {} {} {} {} {}", cfg_s(c), trxs_s(&snap), snap.next_mid, role_s(snap.dtls_role), remote);
     match pc.create_answer().await {
-        Err(e) => { run.case("ans", &input, &err_class(&e), false); run.count("answer_error"); None }
+        Err(e) => {
+            // the offer was ACCEPTED (set_remote_description returned Ok) and is well-formed by construction: no answer = no valid answer
+            run.case("ans", &input, &err_class(&e), false); run.count("answer_error");
+            run.fail(&format!("ans:no-answer:{}", err_class(&e).split(':').take(2).collect::<Vec<_>>().join(":")), case, &format!("create_answer failed on an accepted offer: {e}"));
+            None
+        }
         Ok(ans) => {
             let a_s = answer_s(&ans);
             run.case("ans", &input, &a_s, true);
             run.count(if reneg { "answers_renegotiation" } else { "answers_first" });
             run.count(&format!("answer_sections_{}", ans.media_sections.len()));
-            let cx = Ctx { renegotiation: reneg, cfg: c, first_offer, trx_kinds: snap.transceivers.iter().map(|t| t.kind).collect(), trx_mids: snap.transceivers.iter().map(|t| (t.kind, t.mid.clone())).collect() };
+            let cx = Ctx { renegotiation: reneg, cfg: c, first_offer, trx_kinds: snap.transceivers.iter().map(|t| t.kind).collect(), spec };
             let v = valid_answer(offer, &ans, &cx);
             run.case("valid", &format!("{case} {} {}", desc_s(offer), a_s), &v.text(), !v.all());
             if v.all() { run.count("answers_valid"); } else { run.count("answers_invalid"); }
+            for n in &v.notes { run.count(n); }
             for (sig, detail) in v.fails { run.fail(&sig, case, &detail); }
             round_trip_desc(run, case, "produced-answer", &ans);
             round_trip_text(run, case, "answer-text", &ans.to_sdp_string());
             Some(ans)
+        }
+    }
+}
+
+/// after the answer has been applied (RFC 3264 §6.1: the answerer sends with payload types FROM THE OFFER): a sender whose codec the
+/// offered section lists stamps a payload type the offer binds to that codec. Section of a transceiver: the answer section with its
+/// mid when that is unambiguous, else the only section of its kind; the offered section is the one at the same index.
+fn sender_pt_oracle(run: &mut Run, case: &str, pc: &PeerConnection, offer: &SessionDescription, ans: &SessionDescription) {
+    let snap = pc.verif_snapshot();
+    let neg = pc.verif_negotiated();
+    for t in &snap.transceivers {
+        let Some(p) = neg.iter().find(|n| n.id == t.id).and_then(|n| n.sender_params.clone()) else { continue };
+        let by_mid: Vec<usize> = t.mid.as_deref().filter(|m| !m.is_empty()).map(|m| (0..ans.media_sections.len()).filter(|i| ans.media_sections[*i].mid == m).collect()).unwrap_or_default();
+        let idx = if by_mid.len() == 1 { by_mid[0] } else {
+            let of_kind: Vec<usize> = (0..ans.media_sections.len()).filter(|i| ans.media_sections[*i].kind == t.kind).collect();
+            if of_kind.len() == 1 && snap.transceivers.iter().filter(|x| x.kind == t.kind).count() == 1 { of_kind[0] } else { continue } };
+        let (Some(o), sec) = (offer.media_sections.get(idx), &ans.media_sections[idx]) else { continue };
+        if sec.kind != t.kind || o.kind != t.kind || !matches!(sec.direction, Direction::SendRecv | Direction::SendOnly) { continue; }
+        let offered_for_codec: Vec<String> = bindings(o).into_iter().filter(|(pt, n, _)| n.eq_ignore_ascii_case(&p.name) && o.formats.contains(pt)).map(|(pt, _, _)| pt).collect();
+        if offered_for_codec.is_empty() { run.count("sender_codec_not_offered"); continue; }
+        run.count("sender_pt_checked");
+        if !offered_for_codec.contains(&p.payload_type.to_string()) {
+            run.fail(&format!("snd:sender-pt-not-the-offered-one:{}", kind_ch(t.kind)), case,
+                &format!("sender of transceiver mid {:?} stamps payload type {} ({}); the offered section binds {} to {:?} (answer lists {:?})", t.mid, p.payload_type, p.name, p.name, offered_for_codec, sec.formats));
         }
     }
 }
@@ -584,12 +650,37 @@ pub async fn exec_case(run: &mut Run, case: &str, ac: &AnsCase) {
         let text = render(&c.mode, spec);
         round_trip_text(run, case, "offer-text", &text);
         let offer = match SessionDescription::parse(SdpType::Offer, &text) { Ok(o) => o, Err(_) => { run.count("offer_unparsable"); break; } };
-        if let Err(e) = pc.set_remote_description(offer.clone()).await { run.count(&format!("offer_rejected:{}", e.to_string().split(':').next().unwrap_or("?"))); break; }
+        if let Err(e) = pc.set_remote_description(offer.clone()).await {
+            // acceptance floor: every generated offer is well-formed and arrives in the Stable state; the unchanged stack accepts all of them
+            let why = e.to_string(); let why = why.split(':').next().unwrap_or("?").replace(' ', "-");
+            run.count(&format!("offer_rejected:{why}"));
+            run.fail(&format!("accept:well-formed-offer-rejected:{why}"), case, &format!("set_remote_description rejected a well-formed offer: {e}"));
+            break;
+        }
         run.count(&format!("offer_sections_{}", offer.media_sections.len()));
-        let Some(ans) = answer_step(run, case, c, &pc, &offer, reneg, first.as_ref()).await else { break };
-        if pc.set_local_description(ans).is_err() { run.count("answer_not_accepted_locally"); break; }
+        let Some(ans) = answer_step(run, case, c, &pc, &offer, spec, reneg, first.as_ref()).await else { break };
+        if let Err(e) = pc.set_local_description(ans.clone()) {
+            run.count("answer_not_accepted_locally");
+            run.fail("accept:own-answer-rejected", case, &format!("set_local_description rejected the answer create_answer had just produced: {e}"));
+            break;
+        }
+        sender_pt_oracle(run, case, &pc, &offer, &ans);
         if first.is_none() { first = Some(offer.clone()); }
         reneg = true;
+    }
+    // the negotiated connection becomes an offerer: one more transceiver, a new offer. Its mids are pairwise different — what
+    // set_remote_description's skipping of the remote mids in the mid counter is for.
+    if reneg {
+        pc.add_transceiver(MediaKind::Audio, TransceiverDirection::SendRecv);
+        if let Ok(off) = pc.create_offer().await {
+            run.count("produced_reoffers");
+            let mut mids: Vec<&str> = off.media_sections.iter().map(|m| m.mid.as_str()).filter(|m| !m.is_empty()).collect();
+            let n0 = mids.len(); mids.sort(); mids.dedup();
+            if mids.len() != n0 && !c.offered_first {
+                run.fail("off:duplicate-mid-in-reoffer", case, &format!("offer after the negotiation carries mids {:?}", off.media_sections.iter().map(|m| m.mid.clone()).collect::<Vec<_>>()));
+            }
+            round_trip_desc(run, case, "produced-reoffer", &off);
+        }
     }
     pc.close();
     drop(keep);
